@@ -12,7 +12,7 @@ s=open(p).read()
 n=len(re.findall(fr,s))
 if n!=1:
     print("pattern matches",n,"times"); sys.exit(3)
-open(p,'w').write(re.sub(fr,lambda m: to,s,count=1))
+to=to.encode().decode('unicode_escape'); open(p,'w').write(re.sub(fr,lambda m: to,s,count=1))
 PY
 (cd "$D" && PATH=/opt/veriftools/go1.26.8/bin:$PATH GOFLAGS=-mod=mod GOPROXY=off GOTOOLCHAIN=local CGO_ENABLED=0 go build ./ ./text ./renderers/pdf ./renderers/ps ./renderers/svg ./renderers/rasterizer) || { echo "MUTANT DOES NOT COMPILE"; exit 4; }
 VERIF_DIR=$(mktemp -d /tmp/mutverif.XXXXXX)
